@@ -62,8 +62,9 @@ Resolve(series, applied, goal) ==
        IF first = Len(series) THEN [ok |-> TRUE, first |-> first, last |-> first]       \* nothing to do
        ELSE CASE goal.g = "all"     -> [ok |-> TRUE, first |-> first, last |-> Len(series)]
               [] goal.g = "default" -> [ok |-> TRUE, first |-> first, last |-> Min2c(first + 1, Len(series))]
-              [] goal.g = "count"   -> [ok |-> TRUE, first |-> first, last |-> Min2c(first + goal.n, Len(series))]
-              [] goal.g = "name"    -> LET ix == IndexOf(series, goal.s) IN
+              \* ("acount"/"aname": -a given together with a free argument; the free argument decides)
+              [] goal.g \in {"count", "acount"} -> [ok |-> TRUE, first |-> first, last |-> Min2c(first + goal.n, Len(series))]
+              [] goal.g \in {"name", "aname"} -> LET ix == IndexOf(series, goal.s) IN
                                        IF ix = 0 \/ ix <= first THEN [ok |-> FALSE, first |-> 0, last |-> 0]
                                        ELSE [ok |-> TRUE, first |-> first, last |-> ix]
 =============================================================================
